@@ -234,7 +234,17 @@ func vfProbeMode(k *vfClock) string {
 	select {
 	case <-started:
 	case <-time.After(500 * time.Millisecond):
+		// not finished: the lock is held across the clock read.  Look again for a while before deciding, so that a
+		// descheduled test process cannot turn "asis" into "underlock" (both select cases ready at once).
 		mode = "underlock"
+		for i := 0; i < 50 && mode == "underlock"; i++ {
+			select {
+			case <-started:
+				mode = "asis"
+			default:
+				time.Sleep(10 * time.Millisecond)
+			}
+		}
 	}
 	close(sc.release)
 	<-sc.done
